@@ -175,16 +175,20 @@ def raw_bytes(data, note):
 # ---------------------------------------------------------------------------
 
 file_case = st.tuples(dump_case(), st.integers(1, 2), st.booleans(), st.sampled_from(['padded', 'cut']),
-                      st.sampled_from([0, 0xFFE0, 0x1230]), st.booleans())
+                      st.sampled_from([0, 0xFFE0, 0x1230]), st.booleans(), st.sampled_from(['\n', '\n', '', '\r\n']))
 
 
 @PROP.given('dump-files', lambda tier: file_case, quick=200, thorough=8000, shards_quick=8)
 def dump_files(case, note):
-    dc, fi, lower, last_line, base, use_cli = case
+    dc, fi, lower, last_line, base, use_cli, final_newline = case
     data = dc['data']
     d = dump()
     hdr, strf = D.shipped('mex_pte.h'), D.shipped('mexStringFile')
-    text = ''.join(l + '\n' for l in render_hex(fi, data, lower, last_line, base))
+    rendered = render_hex(fi, data, lower, last_line, base)
+    # the file may or may not end with a line terminator
+    text = '\n'.join(rendered) + (final_newline if rendered and final_newline != '\r\n' else '')
+    if final_newline == '\r\n' and last_line == 'padded':
+        text = ''.join(l + '\n' for l in rendered)
     with D.TempFile(text, '.dump') as path:
         got = guard('C17.file', d.parse_dump_file, path, hdr, strf)
         want = guard('C17.decode', d.parse_dump_data, memoryview(data), hdr, strf) if data else []
